@@ -162,3 +162,65 @@ Definition pair_eqb2 (a b : string * string) : bool := String.eqb (fst a) (fst b
 Definition cmp_closures_okb (gen : list (string * string)) : bool :=
   Nat.eqb (List.length gen) (List.length doc_cmp_closures) && nodupb (map fst gen)
   && forallb (fun p => existsb (pair_eqb2 p) doc_cmp_closures) gen.
+
+(* ------------------------------------------------------------------ what the filters store between matches *)
+(* A filter closure runs once per match and must answer from the match and the run's context alone. go2coq lists, for every
+   function of filters.go / utils.go and every method of filterParams, the storage it writes that outlives the call (a field
+   behind *filterParams, a package-level variable, a table the constructor made and the closure fills). The audited writes:
+   the name of the capture a custom filter function is asked about and the capture preset of a Contains() sub-search are SET
+   before every use (never read across matches); `found` is a local of a load-time helper, written by a callback it runs
+   itself. A size memo, a "types seen" table, a counter would be further entries. *)
+Definition doc_run_state : list (string * string) := [
+  ("makeCustomVarFilter", "params.varname");
+  ("makeVarContainsFilter", "params.gogrepSubState");
+  ("regexpHasCaptureGroups", "captured:found")
+].
+
+Definition run_state_okb (gen : list (string * string)) : bool :=
+  Nat.eqb (List.length gen) (List.length doc_run_state) && forallb (fun p => existsb (pair_eqb2 p) doc_run_state) gen.
+
+Lemma run_state_spec gen : run_state_okb gen = true -> forall fn x, In (fn, x) gen -> In (fn, x) doc_run_state.
+Proof.
+  unfold run_state_okb. intros H fn x Hin. apply andb_prop in H as [_ H].
+  rewrite forallb_forall in H. specialize (H _ Hin). apply existsb_exists in H as [[fn' x'] [Hd He]].
+  unfold pair_eqb2 in He. cbn in He. apply andb_prop in He as [E1 E2].
+  apply String.eqb_eq in E1, E2. now subst.
+Qed.
+
+(* ------------------------------------------------------------------ a value remembered per type *)
+(* What such a table would have to be keyed by. Distinct Go types can PRINT alike: `type T struct{..}` declared in two functions
+   of a file, a local type that shadows a package-level one, arrays / structs / pointers of such types. A type of the model is
+   an identity (which declaration), what types.Type.String() prints for it, and its size. *)
+Record ptype := { pt_id : nat; pt_print : string; pt_size : nat }.
+
+(* remembering sizes by the printed form: the second of two look-alike types of different sizes gets the size of the first,
+   in whichever order they are asked about *)
+Theorem size_memo_by_print_unsound a b :
+  pt_print b = pt_print a -> pt_size a <> pt_size b ->
+  calls pt_size pt_print String.eqb [] [a; b] <> map pt_size [a; b].
+Proof. intros Hp Hs. apply memo_unsound_witness; [rewrite Hp; apply String.eqb_refl|exact Hs]. Qed.
+
+(* ... so a comparison of the two sizes sees them equal *)
+Corollary size_memo_by_print_equates a b :
+  pt_print b = pt_print a -> calls pt_size pt_print String.eqb [] [a; b] = [pt_size a; pt_size a].
+Proof. intros Hp. cbn. unfold call at 1. cbn. unfold call. cbn. rewrite Hp, String.eqb_refl. reflexivity. Qed.
+
+(* a key is invisible exactly when it determines the size: for every sequence of questions *)
+Theorem size_memo_transparent {K} (key : ptype -> K) (keqb : K -> K -> bool) :
+  (forall a b, keqb (key a) (key b) = true -> pt_size a = pt_size b) ->
+  forall l, calls pt_size key keqb [] l = map pt_size l.
+Proof. intros Hk l. now apply memo_transparent. Qed.
+
+(* the identity of the declaration is such a key in every universe where an identity has one size *)
+Corollary size_memo_by_identity_transparent :
+  (forall a b, pt_id a = pt_id b -> pt_size a = pt_size b) ->
+  forall l, calls pt_size pt_id Nat.eqb [] l = map pt_size l.
+Proof. intros H. apply size_memo_transparent. intros a b E. apply H. now apply PeanoNat.Nat.eqb_eq. Qed.
+
+(* `type L struct{ a int64 }` in one block, `type L struct{ a, b int64 }` in the next *)
+Example demo_look_alike_types :
+  let l1 := {| pt_id := 1; pt_print := "target.L"; pt_size := 8 |} in
+  let l2 := {| pt_id := 2; pt_print := "target.L"; pt_size := 16 |} in
+  calls pt_size pt_print String.eqb [] [l1; l2] = [8; 8] /\ calls pt_size pt_print String.eqb [] [l2; l1] = [16; 16] /\
+  calls pt_size pt_id Nat.eqb [] [l1; l2; l1] = [8; 16; 8].
+Proof. vm_compute. repeat split. Qed.
